@@ -364,8 +364,25 @@ def one_pipeline(ctx):
         c = calls(fn, target)
         ctx.check(bool(c) and src(c[0].args[0]) == "self" and src(c[0].args[1]) == "self.callable_", "entry:" + meth, db.where(fn), "%s does not go through %s(self, self.callable_, ...)" % (meth, target), target)
     rcx = db.func("runtime._render_context")
-    ok = pm.has(rcx, "($i, $l) = _populate_self_namespace($c, $t.parent)\n_exec_template($f, $c, args=$a, kwargs=$k)")
-    ctx.check(ok and any(src(p_) == "callable_" for p_ in [rcx.args.args[1]] if True) , "entry:get_def-context", db.where(rcx), "a def rendered through get_def(name).render() is not executed with the caller's own context after wiring the parent template's namespaces: it sees the base template's context (no parent, wrong local) when the template inherits", "def executed on the given context with self/local of the owning template")
+    # a def: the parent template's namespaces are wired into the caller's context, and the def runs on that context
+    from .common import sym_cases, facts_at
+    tp_, cp_, xp_ = pn(rcx, 0), pn(rcx, 1), pn(rcx, 2)
+    ok = False
+    for e_ in [c_ for c_ in walk_func(rcx) if isinstance(c_, ast.Call) and dotted(c_.func) == "_exec_template"]:
+        for conds_, v_ in sym_cases(rcx, e_):
+            if any(pm.matches(t_, "isinstance(%s, $cls)" % tp_) and tv_ for t_, tv_ in conds_) and len(v_.args) >= 2:
+                ok = src(v_.args[0]) == cp_ and src(v_.args[1]) == xp_
+    wired = False
+    for c_ in [c_ for c_ in walk_func(rcx) if isinstance(c_, ast.Call) and dotted(c_.func) == "_populate_self_namespace"]:
+        for conds_, v_ in sym_cases(rcx, c_):
+            isdef_ = any(pm.matches(t_, "isinstance(%s, $cls)" % tp_) and tv_ for t_, tv_ in conds_) or ("isinstance(%s, template.DefTemplate)" % tp_, True) in facts_at(c_, rcx)
+            if isdef_ and pm.matches(v_, "_populate_self_namespace(%s, %s.parent)" % (xp_, tp_)):
+                wired = True
+            # a call that is not under the test at all serves both kinds: its argument decides
+            if not conds_ and isinstance(v_.args[1], ast.IfExp) and pm.matches(v_.args[1].test, "isinstance(%s, $cls)" % tp_) and src(v_.args[1].body) == tp_ + ".parent":
+                wired = True
+    ok = ok and wired
+    ctx.check(ok, "entry:get_def-context", db.where(rcx), "a def rendered through get_def(name).render() is not executed with the caller's own context after wiring the parent template's namespaces: it sees the base template's context (no parent, wrong local) when the template inherits", "def executed on the given context with self/local of the owning template")
     rn = db.func("runtime._render")
     ctx.check(bool(calls(rn, "_render_context")), "entry:_render->_render_context", db.where(rn), "_render does not funnel into _render_context", "_render -> _render_context")
     gd = db.func("template.Template.get_def")
